@@ -777,15 +777,49 @@ impl Database {
         key_disk_addr: u64,
         opp_id: u64,
     ) {
-        self.set_value_version(
-            key,
-            &value.value,
-            value.version,
-            ValueStatus::Ok,
-            value_disk_addr,
-            key_disk_addr,
-            opp_id,
-        );
+        // `value` is the copy the snapshot took before writing. The key may have been written or
+        // removed since (clients are not blocked while a snapshot runs): keep what is in memory
+        // then, still pending for the next snapshot, and only remember where the record is on disk
+        let mut db = self.map.write().unwrap();
+        let stored = match db.get(key) {
+            Some(current)
+                if current.version != value.version
+                    || (current.state == ValueStatus::Deleted
+                        && value.state != ValueStatus::Deleted) =>
+            {
+                Value {
+                    value: current.value.clone(),
+                    version: current.version,
+                    state: if current.state == ValueStatus::Deleted {
+                        ValueStatus::Deleted
+                    } else {
+                        ValueStatus::Updated
+                    },
+                    value_disk_addr,
+                    key_disk_addr,
+                    opp_id: current.opp_id,
+                }
+            }
+            // A key that was not on disk yet and was removed meanwhile is gone from memory, the
+            // record just written has to be marked as removed by the next snapshot
+            None if value.state != ValueStatus::Deleted => Value {
+                value: String::from("<Empty>"),
+                version: value.version + 1,
+                state: ValueStatus::Deleted,
+                value_disk_addr,
+                key_disk_addr,
+                opp_id,
+            },
+            _ => Value {
+                value: value.value.clone(),
+                version: value.version,
+                state: ValueStatus::Ok,
+                value_disk_addr,
+                key_disk_addr,
+                opp_id,
+            },
+        };
+        db.insert(key.clone(), stored);
     }
 
     /// apply the change to the database
